@@ -143,6 +143,12 @@ mut("c19-env-cache-without-minor", ["C19"],
     ("cvss/cvss3.py", "        self.compute_environmental_score()\n\n    def parse_vector(self):", "        key = self.clean_vector(output_prefix=False)\n        if key in _ENV_CACHE:\n            self.environmental_score = _ENV_CACHE[key]\n        else:\n            self.compute_environmental_score()\n            _ENV_CACHE[key] = self.environmental_score\n\n    def parse_vector(self):"),
     ("cvss/cvss3.py", "def round_up(value):", "_ENV_CACHE = {}\n\n\ndef round_up(value):"))
 mut("c19-constant-table-updated", ["C19"], ("cvss/cvss3.py", "        result = METRICS_VALUE_NAMES[abbreviation][string_value]", '        METRICS_VALUE_NAMES[abbreviation].setdefault("ND", "Not Defined")\n        result = METRICS_VALUE_NAMES[abbreviation][string_value]'))
+mut("modes-side-effect-inside-assert", ["C02"], ("cvss/cvss4.py", '            fields = self.vector.split("/")[1:]', '            fields = self.vector.split("/")\n            assert fields.pop(0) == "CVSS:4.0"'),
+    note="only under python -O: interpreter-mode stage")
+mut("modes-bytes-literal-comparison", ["C06"], ("cvss/cvss3.py", 'self.metrics[abbreviation] == "X":', 'self.metrics[abbreviation] in ("X", b"X"):'),
+    note="only under python -bb: interpreter-mode stage")
+mut("c19-after-three-thousand-roundings", ["C19"], ("cvss/cvss3.py", "def round_up(value):", "_SEEN = []\n\n\ndef round_up(value):\n    _SEEN.append(None)\n    if len(_SEEN) > 3000:\n        return value.quantize(D(\"0.1\"))"),
+    note="only a LONG history (about a thousand v3 objects) reaches it: check 'many'")
 mut("c19-sets-context-rounding", ["C19"], ("cvss/cvss3.py", '    return value.quantize(D("0.1"), rounding=ROUND_CEILING)', '    import decimal\n\n    decimal.getcontext().rounding = ROUND_CEILING\n    return value.quantize(D("0.1"))'))
 mut("c19-module-scratch-variable", ["C19"],
     ("cvss/cvss3.py", '        self.scope = self.metrics["S"]\n', '        global _SCOPE\n        _SCOPE = self.metrics["S"]\n        self.scope = _SCOPE\n'),
